@@ -45,6 +45,19 @@ def subharnesses(tier):
                         'apps': apps, 'event': ['none']}
                 subs.append(('%s-D%d-A%d-%s-unplaceable%d' % (
                     topo, D, A, g1.ptag(pl), i), spec))
+    # two blacklisted instances ahead of a pending one that cannot be placed,
+    # a running instance between them (A = 4)
+    for topo in ('T1', 'T2'):
+        for pl in [(None, None, 0, None), (0, None, 0, None),
+                   (None, 1, 0, None), (0, 1, 1, None), (None, None, 0, 1)]:
+            for bl in ((0, 1), (0, 3)):
+                apps = [{'place': j} for j in pl]
+                for b in bl:
+                    apps[b]['blacklisted'] = True
+                spec = {'topo': topo, 'D': 1, 'servers': [{}, {}],
+                        'apps': apps, 'event': ['none']}
+                subs.append(('%s-D1-A4-%s-blacklisted%s' % (
+                    topo, g1.ptag(pl), ''.join(map(str, bl))), spec))
     return subs
 
 
